@@ -129,3 +129,197 @@ def w_vacancy(arg):
                                   sig=(k, s_, nm, 'smooth'), signature='smooth|%s|%s|%g' % (cid, nm, s_))
     acc.sample = {'calculator': cid, 'Nvstars': int(d.vkinetic.Nvstars), 'origin_states': int(len(d.OSindices)), 'datasets': nsets, 'property': which}
     return acc.result()
+
+
+# ----------------------------------------------------------------------------------------- C13 / C14 / C15
+def h5_roundtrip(d):
+    import h5py
+    from onsager import OnsagerCalc
+    f = h5py.File('roundtrip-%d.h5' % id(d), 'w', driver='core', backing_store=False)
+    d.addhdf5(f.create_group('calc'))
+    return OnsagerCalc.VacancyMediated.loadhdf5(f['calc'])
+
+
+def same_L(a, b, tol=0.):
+    return all(np.array_equal(x, y) if tol == 0. else np.allclose(x, y, rtol=tol, atol=tol * max(np.abs(x).max(), 1e-300)) for x, y in zip(a, b))
+
+
+def w_history(arg):
+    """C13 + C14: results depend only on the inputs -- not on the call history, cached values, in-place edits of earlier
+    results, cache clears, range regeneration, or a save / reload; reloaded calculators reproduce results and tags exactly"""
+    cid, tier, seed, which = arg
+    from vf.common import repo_on_path; repo_on_path()
+    import warnings; warnings.filterwarnings('ignore')
+    acc = Acc(cid)
+    rng = np.random.default_rng(seed * 73 + sum(map(ord, cid)))
+    d, e = build(cid, tier, seed)
+    npool = 3 if tier == 'quick' else 5
+    pool = [data(d, rng, spread=(1.0, 2.0)[k % 2], tracer=(k == 1)) for k in range(npool)]
+    # two inputs that share the vacancy data (same Green-function cache key) but differ in the solute data
+    pool.append(dict(pool[0], eneSV=pool[0]['eneSV'] + 0.37, preS=pool[0]['preS'] * 1.3))
+    fresh = []
+    for t in pool:
+        d0, _ = build(cid, tier, seed)
+        fresh.append([x.copy() for x in L(d0, t)])
+    sc = [max(np.abs(x).max() for x in F) for F in fresh]
+    def check(dd, k, what, hist, tol=1e-11):
+        got = L(dd, pool[k])
+        ok = same_L(got, fresh[k], tol)
+        acc.check(ok, what, 'input %d after %s: max deviation %.2e' % (k, ' ; '.join(hist[-5:]), max(np.abs(a - b).max() for a, b in zip(got, fresh[k])) / sc[k]), sig=(what, k, len(hist)))
+        return got
+    if which == 'C14':
+        hist = []
+        nsteps = 14 if tier == 'quick' else 60
+        last = None
+        for step in range(nsteps):
+            op = rng.choice(['call', 'call', 'call', 'edit', 'clear', 'regen', 'reload']) if step > 1 else 'call'
+            if op == 'call' or last is None:
+                k = int(rng.integers(len(pool))); hist.append('Lij(%d)' % k)
+                last = check(d, k, 'result-independent-of-call-history', hist)
+            elif op == 'edit':
+                for T in last: T *= rng.uniform(2, 5)
+                T = last[0]; T[0, 0] += 1.0
+                hist.append('edit-returned-arrays-in-place')
+            elif op == 'clear':
+                d.clearcache(); hist.append('clearcache()')
+            elif op == 'regen':
+                n0 = d.Nthermo
+                try:
+                    d.generate(n0 + 1); d.generatematrices(); d.generate(n0); d.generatematrices()
+                    d.tags, d.tagdict, d.tagdicttype = d.generatetags()
+                    hist.append('generate(%d);generate(%d)' % (n0 + 1, n0))
+                except Exception as ex:
+                    acc.check(False, 'range-regeneration-no-exception', '%s: %s' % (type(ex).__name__, str(ex)[:200])); break
+            elif op == 'reload':
+                d = h5_roundtrip(d); hist.append('save/reload')
+        # A, B, A on inputs with different vacancy data and an edit in between (cache hit must return the value of the key)
+        for (a, b) in ((0, 2), (2, 0)):
+            d1, _ = build(cid, tier, seed)
+            r1 = L(d1, pool[a]); L(d1, pool[b]); r3 = check(d1, a, 'cache-hit-returns-the-value-computed-for-that-input', ['Lij(%d)' % a, 'Lij(%d)' % b, 'Lij(%d)' % a])
+            for T in r3: T += 7.0
+            check(d1, a, 'caller-edits-of-a-cache-hit-do-not-reach-the-cache', ['Lij(%d)' % a, 'Lij(%d)' % b, 'Lij(%d)' % a, 'edit', 'Lij(%d)' % a])
+        # range regeneration to a DIFFERENT range: the regenerated calculator must equal one constructed at that range
+        if sum(len(j) for j in d.om0_jn) <= 14:
+            try:
+                dA, _ = build(cid, tier, seed, Nthermo=1)
+                L(dA, pool[0])                                   # populate caches first
+                dA.generate(2); dA.generatematrices(); dA.tags, dA.tagdict, dA.tagdicttype = dA.generatetags()
+                dB, _ = build(cid, tier, seed, Nthermo=2)
+                t2 = data(dB, rng)
+                gA, gB = L(dA, t2), L(dB, t2)
+                sc2 = max(np.abs(x).max() for x in gB)
+                acc.check(same_L(gA, gB, 1e-11), 'regenerated-range-equals-a-calculator-built-at-that-range',
+                          'generate(2) after construction at Nthermo=1: max deviation %.2e' % (max(np.abs(a - b).max() for a, b in zip(gA, gB)) / sc2), sig=('regen2',))
+                acc.check(dA.tags == dB.tags, 'regenerated-tags-equal-a-calculator-built-at-that-range', '', sig=('regen2tags',))
+            except Exception as ex:
+                acc.check(False, 'range-regeneration-no-exception', '%s: %s' % (type(ex).__name__, str(ex)[:200]), sig=('regen2exc',))
+    if which == 'C13':
+        for when in ('before-cache', 'after-cache'):
+            d1, _ = build(cid, tier, seed)
+            if when == 'after-cache':
+                for k in (0, 1): L(d1, pool[k])
+            try:
+                d2 = h5_roundtrip(d1)
+            except Exception as ex:
+                acc.check(False, 'hdf5-round-trip-no-exception', '%s: %s: %s' % (when, type(ex).__name__, str(ex)[:200])); continue
+            acc.check(d2.tags == d1.tags and d2.tagdict == d1.tagdict and d2.tagdicttype == d1.tagdicttype, 'reloaded-tags-identical', when, sig=('tags', when))
+            for k in range(len(pool)):
+                g1, g2 = L(d1, pool[k]), L(d2, pool[k])
+                acc.check(same_L(g1, g2), 'reloaded-calculator-gives-identical-results', '%s input %d: max deviation %.2e' % (when, k, max(np.abs(a - b).max() for a, b in zip(g1, g2)) / sc[k]), sig=('L', when, k))
+            for attr in ('GFvalues', 'Lvvvalues', 'etavvalues'):
+                c1, c2 = getattr(d1, attr), getattr(d2, attr)
+                ok = len(c1) == len(c2) and all(any(np.array_equal(np.hstack(k1), np.hstack(k2)) and np.array_equal(np.asarray(v1), np.asarray(v2)) for k2, v2 in c2.items()) for k1, v1 in c1.items())
+                acc.check(ok, 'reloaded-cache-identical:' + attr, when, sig=('cache', attr, when))
+            try:
+                n = max(3, 2 * int(np.ceil(1.5 / min(np.linalg.norm(d2.crys.lattice, axis=0)))))
+                if d2.dim == 3:
+                    s1, s2 = d1.makesupercells(n * np.eye(3, dtype=int)), d2.makesupercells(n * np.eye(3, dtype=int))
+                    acc.check(set(s1) == set(s2), 'reloaded-calculator-supports-every-public-method(makesupercells)', when, sig=('msc', when))
+            except Exception as ex:
+                acc.check(False, 'reloaded-calculator-supports-every-public-method(makesupercells)', '%s: %s: %s' % (when, type(ex).__name__, str(ex)[:150]), sig=('msc', when))
+            # a second generation round trip and further use
+            d3 = h5_roundtrip(d2)
+            acc.check(same_L(L(d3, pool[-1]), L(d1, pool[-1])), 'second-generation-reload-identical', when, sig=('gen2', when))
+    acc.sample = {'calculator': cid, 'inputs': len(pool), 'property': which}
+    return acc.result()
+
+
+def w_tags(arg):
+    """C15: tags unique, name exactly one class; tags2preene reproduces exactly the supplied data; exact VERBOSE report"""
+    cid, tier, seed, which = arg
+    from vf.common import repo_on_path; repo_on_path()
+    import warnings; warnings.filterwarnings('ignore')
+    from onsager import OnsagerCalc
+    acc = Acc(cid)
+    rng = np.random.default_rng(seed * 79 + sum(map(ord, cid)))
+    d, e = build(cid, tier, seed)
+    di = OnsagerCalc.Interstitial(d.crys, d.chem, d.sitelist, d.om0_jn)
+    for calc, kinds in ((di, ('states', 'transitions')), (d, d.__taglist__)):
+        alltags = [t for k in kinds for cls in calc.tags[k] for t in cls]
+        acc.check(len(alltags) == len(set(alltags)), 'tags-unique', type(calc).__name__, sig=('uniq', type(calc).__name__))
+        ok = all(calc.tagdict[t] == i and calc.tagdicttype[t] == k for k in kinds for i, cls in enumerate(calc.tags[k]) for t in cls) and set(calc.tagdict) == set(alltags)
+        acc.check(ok, 'tag-dictionary-names-exactly-the-class-that-lists-the-tag', type(calc).__name__, sig=('dict', type(calc).__name__))
+        acc.check(all(len(cls) > 0 for k in kinds for cls in calc.tags[k]), 'every-class-has-a-tag', type(calc).__name__)
+    sizes = {'vacancy': len(d.sitelist), 'solute': len(d.sitelist), 'solute-vacancy': d.thermo.Nstars, 'omega0': len(d.om0_jn), 'omega1': len(d.om1_jn), 'omega2': len(d.om2_jn)}
+    names = {'vacancy': ('preV', 'eneV'), 'solute': ('preS', 'eneS'), 'solute-vacancy': ('preSV', 'eneSV'), 'omega0': ('preT0', 'eneT0'), 'omega1': ('preT1', 'eneT1'), 'omega2': ('preT2', 'eneT2')}
+    acc.check(all(len(d.tags[k]) == n for k, n in sizes.items()), 'one-tag-class-per-symmetry-class', str({k: len(d.tags[k]) for k in sizes}), sig='sizes')
+    classes = [(k, i) for k in d.__taglist__ for i in range(len(d.tags[k]))]
+    ntr = 12 if tier == 'quick' else 60
+    for trial in range(ntr):
+        mode = ('all-first', 'random-subset', 'duplicates-and-bogus', 'balanced-duplicates-and-omissions', 'vacancy-solute-distinct')[trial % 5]
+        chosen = {}
+        if mode == 'all-first': sel = classes
+        elif mode == 'vacancy-solute-distinct': sel = [c for c in classes if c[0] in ('vacancy', 'solute')]
+        else: sel = [c for c in classes if rng.random() < 0.6]
+        user = {}; given = {}
+        for (k, i) in sel:
+            tag = d.tags[k][i][int(rng.integers(len(d.tags[k][i])))] if mode != 'all-first' else d.tags[k][i][0]
+            val = (float(rng.uniform(0.5, 2)), float(rng.uniform(-1, 1)))
+            user[tag] = val; given[(k, i)] = (val, [tag])
+        dups = []
+        if mode in ('duplicates-and-bogus', 'balanced-duplicates-and-omissions'):
+            multi = [(k, i) for (k, i) in given if len(d.tags[k][i]) > 1]
+            for (k, i) in multi[:2]:
+                extra = [t for t in d.tags[k][i] if t not in user][:1]
+                for t in extra:
+                    user[t] = given[(k, i)][0]; given[(k, i)][1].append(t)
+            dups = [(k, i) for (k, i), (v, tl) in given.items() if len(tl) > 1]
+            if mode == 'balanced-duplicates-and-omissions':
+                # leave out exactly as many classes as there are surplus tags
+                surplus = sum(len(tl) - 1 for v, tl in given.values())
+                for (k, i) in [c for c in list(given) if len(given[c][1]) == 1][:surplus]:
+                    for t in given[(k, i)][1]: del user[t]
+                    del given[(k, i)]
+        bogus = []
+        if mode == 'duplicates-and-bogus':
+            bogus = ['no-such-tag-%d' % trial, 'v:+9.999,+9.999,+9.999']
+            for b in bogus: user[b] = (1.0, 0.0)
+        keys = list(user); rng.shuffle(keys); user = {k_: user[k_] for k_ in keys}
+        try:
+            thermo, missing, duplicate, bad = d.tags2preene(user, VERBOSE=True)
+            thermo2 = d.tags2preene(user)
+        except Exception as ex:
+            acc.check(False, 'tags2preene-no-exception', '%s: %s: %s' % (mode, type(ex).__name__, str(ex)[:200])); continue
+        limb = None
+        ok = True; detail = ''
+        for (k, i) in classes:
+            pn, en = names[k]
+            if (k, i) in given and len(given[(k, i)][1]) == 1:
+                if (thermo[pn][i], thermo[en][i]) != given[(k, i)][0]: ok = False; detail = '%s[%d] = %r, supplied %r' % (k, i, (thermo[pn][i], thermo[en][i]), given[(k, i)][0])
+            elif (k, i) not in given and k not in ('omega1', 'omega2'):
+                if (thermo[pn][i], thermo[en][i]) != (1.0, 0.0): ok = False; detail = '%s[%d] default' % (k, i)
+        acc.check(ok, 'supplied-data-reproduced-exactly-in-the-parameter-set', '%s: %s' % (mode, detail), sig=(mode, 'data', trial))
+        # classes of omega1/omega2 without data take the LIMB back-fill of the other data
+        lim = d.makeLIMBpreene(**{k_: thermo[k_] for k_ in ('preS', 'eneS', 'preSV', 'eneSV', 'preT0', 'eneT0')})
+        ok = all(((k, i) in given) or (thermo[names[k][0]][i] == lim[names[k][0]][i] and thermo[names[k][1]][i] == lim[names[k][1]][i]) for (k, i) in classes if k in ('omega1', 'omega2'))
+        acc.check(ok, 'missing-transition-data-back-filled-by-the-default', mode, sig=(mode, 'limb', trial))
+        acc.check(all(np.array_equal(thermo[k_], thermo2[k_]) for k_ in thermo2), 'verbose-flag-does-not-change-the-data', mode)
+        want_missing = {k: [d.tags[k][i] for (kk, i) in classes if kk == k and (kk, i) not in given] for k in d.__taglist__}
+        want_missing = {k: v for k, v in want_missing.items() if v}
+        got_missing = {k: sorted(map(tuple, v)) for k, v in missing.items()}
+        acc.check(got_missing == {k: sorted(map(tuple, v)) for k, v in want_missing.items()}, 'verbose-report-lists-exactly-the-classes-without-data',
+                  '%s: reported %d classes, expected %d' % (mode, sum(len(v) for v in missing.values()), sum(len(v) for v in want_missing.values())), sig=(mode, 'missing', trial))
+        acc.check(sorted(sorted(x) for x in duplicate) == sorted(sorted(given[c][1]) for c in given if len(given[c][1]) > 1), 'verbose-report-lists-exactly-the-classes-given-more-than-once', mode, sig=(mode, 'dup', trial))
+        acc.check(sorted(bad) == sorted(bogus), 'verbose-report-lists-exactly-the-unrecognised-tags', mode, sig=(mode, 'bad', trial))
+    acc.sample = {'calculator': cid, 'classes': len(classes), 'trials': ntr}
+    return acc.result()
